@@ -117,6 +117,8 @@ def check(seed, n):
                 continue
             wo = k % 5 != 0
             real_parse.last_errors = 0
+            if sum(1 for r in reals if r == "hang") > 3:
+                break        # enough texts on which the parser does not return
             reals.append(real_parse(text, d, wo))
             reqs.append("parse {} {}".format(proto.w_str(text), 1 if wo else 0))
             cases.append({"text": text, "warn_octal": wo, "nerrors": real_parse.last_errors})
